@@ -96,6 +96,21 @@ impl Scenario for C16 {
             run.live_timers_end
           ),
         });
+      } else if run.idle_at.map_or(false, |i| i > run.script_end_ns.max(t.t) + 100 * MS) {
+        // every timer in a generated pipeline is <= 5 ms: 100 ms after the later
+        // of the terminal and the last scripted event only a producer that was
+        // not retired (or was started for nobody) can still be at work
+        violation = Some(Violation {
+          rule: "c16.producer-not-retired".into(),
+          site: site.clone(),
+          detail: format!(
+            "`{}`: the subscriber got its terminal at {}ms and the script ended at {}ms, yet the executor only became idle at {}ms (all periods and delays in the pipeline are <= 5ms)",
+            run.trace.trim(),
+            t.t / MS,
+            run.script_end_ns / MS,
+            run.idle_at.unwrap() / MS
+          ),
+        });
       } else if run.ticks.iter().filter(|s| **s > t.seq_out).count() > run.ticker_instances {
         violation = Some(Violation {
           rule: "c16.ticked-after-terminal".into(),
@@ -124,6 +139,12 @@ impl Scenario for C16 {
         }
       }
     }
+    // tasks spawned after the subscriber's terminal in runs where nothing was
+    // emitted into a hot input afterwards: work started for nobody
+    let late_spawns = match term {
+      Some(t) if !run.emit_stamps.iter().any(|s| *s >= t.seq_out) => run.spawn_stamps.iter().filter(|s| **s > t.seq_out).count() as u64,
+      _ => 0,
+    };
     let evs: Vec<Ev> = run.recs.iter().map(|r| r.ev.clone()).collect();
     let mut h = hash_str(&run.trace);
     for r in &run.recs {
@@ -137,7 +158,7 @@ impl Scenario for C16 {
       sim_ns: run.sim_ns,
       steps: case.acts.len() as u64,
       faults: vec![("early_termination_reached", term.is_some() as u64), ("clock_jump_over_2_deadlines", run.clock_jumps)],
-      reach: vec![("probe_terminated_with_unbounded_producer_upstream", term.is_some() as u64)],
+      reach: vec![("probe_terminated_with_unbounded_producer_upstream", term.is_some() as u64), ("info:tasks_spawned_after_the_terminal(no hot emission afterwards)", late_spawns)],
       resolved: None,
       sample: format!(
         "{} {}: {} => [{}] idle={} idle_at={:?}ms pulls={} polls={}",
